@@ -6,9 +6,9 @@ var formatRequirementDevs = map[string][]string{
 	"packed-self":       {"self.algMismatch", "sig.otherKey"},
 	"fido-u2f":          {"u2f.twoCerts", "u2f.emptyX5cEntries", "u2f.noCerts", "u2f.certP384", "u2f.certRSA", "u2f.credNotEC2"},
 	"tpm":               {"tpm.badMagic", "tpm.badType", "tpm.wrongName", "tpm.nameAlgMismatch", "tpm.nameAlgForeignSameSize", "x5c.leafSecond", "tpm.nameHandle", "tpm.nameEmpty", "tpm.pubAreaOtherKey", "tpm.v1", "tpm.isCA", "tpm.noEKU", "tpm.ekuAnyOnly", "tpm.noSAN", "tpm.sanUnknownVendor", "tpm.sanNoModel", "tpm.sanNoVersion", "tpm.sanNoManufacturer", "tpm.extraDataOther", "tpm.extraDataShort", "tpm.noCerts"},
-	"android-key":       {"ak.certKeyOther", "ak.allAppsSW", "ak.allAppsTEE", "ak.noSign", "ak.originOther", "ak.challengeOther", "ak.noExtension", "x5c.leafSecond"},
-	"apple":             {"apple.certKeyOther", "apple.nonceOther", "apple.noNonce", "x5c.leafSecond"},
-	"android-safetynet": {"sn.wrongHost", "sn.untrustedChain", "sn.nonceOther", "sn.noX5c", "sn.nonceNotBase64", "sn.leafSecond", "sn.critUnknown", "sn.payloadAltered", "sn.unsigned"},
+	"android-key":       {"ak.certKeyOther", "ak.allAppsSW", "ak.allAppsTEE", "ak.noSign", "ak.originOther", "ak.challengeOther", "ak.challengeShort", "ak.noExtension", "x5c.leafSecond"},
+	"apple":             {"apple.certKeyOther", "apple.nonceOther", "apple.nonceShort", "apple.noNonce", "x5c.leafSecond"},
+	"android-safetynet": {"sn.wrongHost", "sn.untrustedChain", "sn.nonceOther", "sn.nonceShort", "sn.noX5c", "sn.nonceNotBase64", "sn.leafSecond", "sn.critUnknown", "sn.payloadAltered", "sn.unsigned"},
 }
 
 func attestCase(c *Ctx, stream, format string, devs []string, viaCeremony bool) {
